@@ -2,7 +2,7 @@ SPECIFICATION GSpec
 VIEW GView
 CHECK_DEADLOCK FALSE
 CONSTANTS
-  MaxVals = 3
-  MaxSteps = 6
+  MaxVals = 2
+  MaxSteps = 5
   MaxDepth = 1
   EmitAll = TRUE
